@@ -4,10 +4,10 @@ package main
 // small set of intrinsics (sync, channels).
 
 import (
-	"os"
 	"fmt"
 	"go/token"
 	"go/types"
+	"os"
 	"strings"
 
 	"golang.org/x/tools/go/ssa"
